@@ -63,7 +63,15 @@ RULE = ("random bounded models and catalogue models as in C06; theta, x0, grids;
         "subset-permuted (3 x 4 x 4 combinations in turn) on time-dependent, catalogue and random models; boundary values (tags "
         "boundary:*): weight exactly 0 or exactly 1 for one observed state, weights differing between states (per-state vector or n x p "
         "matrix), one observation time (one observed state: several states with one time are rejected by the unchanged constructor), "
-        "a parameter exactly 0 at the evaluation point; jac and jacIV judged in every gradient case (tags select:*, td-model:*, td-shape:*).")
+        "a parameter exactly 0 at the evaluation point; jac and jacIV judged in every gradient case (tags select:*, td-model:*, td-shape:*).  "
+        "ROUND D gradient cases: `large` (10 quick) - losscommon.LARGE_CATALOGUE in turn (staged progression chains 11 x 10, 12 x 9, 14 x 8, "
+        "10 x 11 with death and inflow; 4-patch SIR with coupling 12 x 9: num_state x num_param = 104 .. 112), a late stage / another patch "
+        "observed, free variables: all parameters + 3 initial values / 3-5 parameters + all initial values / 2-4 parameters + 2 initial "
+        "values (non-declared order); sensitivity, gradient, jac, jacIV, sensitivityIV judged as everywhere; `scaled` (12 quick) - head-count "
+        "models (SIR N = 1e6 / 1e8, SIR_norm beta = 5e-9), finite-difference steps relative to the variable, comparison relative per entry down "
+        "to the natural size of the entry (cost / |variable| for gradients, max |prediction| / |variable| for Jacobians), every other case "
+        "with weights of 1/N (tags family:large, family:scaled, num_state*num_param=*).  A fifth of the history scripts run on a time-dependent "
+        "model with the clock of the loss object moved away from zero (losshist.py).")
 ASSUMPTIONS = ["integrating the variational (forward sensitivity) system yields the derivative of the flow in the parameters and the "
                "initial values (classical, not in Mathlib): hypothesis `hsens` of grad_is_chain_rule; validated per case against "
                "finite differences of an independent reference",
